@@ -24,7 +24,7 @@ MIN_DISTINCT = 30
 
 def plan(tier, seed):
     n = 16 if tier == "quick" else 48
-    total = 400 if tier == "quick" else 6000
+    total = 400 if tier == "quick" else 20000
     return [{"part": i, "parts": n, "seed": seed, "tier": tier, "count": max(1, total // n)} for i in range(n)]
 
 
